@@ -166,10 +166,23 @@ func c10WideDecode(c *Ctx, k c10WideCase, t reflect.Type) {
 			err = json.Unmarshal(in, target.Interface())
 		case "Tokenizer":
 			tok := json.NewTokenizer(in)
-			for tok.Next() {
-				_ = tok.Kind()
-				if tok.Kind().Class() == json.String {
-					_ = tok.String()
+			var kept [][]byte
+			var snaps []string
+			for round := 0; round < 2; round++ { // the second round on a Reset tokenizer
+				for tok.Next() {
+					_ = tok.Kind()
+					if tok.Kind().Class() == json.String {
+						b := tok.String()
+						kept = append(kept, b)
+						snaps = append(snaps, string(b))
+					}
+				}
+				tok.Reset(in)
+			}
+			for i := range kept {
+				if string(in) == k.Doc && string(kept[i]) != snaps[i] {
+					fail("a Tokenizer.String result unchanged by later calls: "+clipS(snaps[i]), clipS(string(kept[i])))
+					break
 				}
 			}
 			err = fmt.Errorf("no value")
